@@ -14,6 +14,7 @@ import renderlib as R
 LEVEL = "proof"
 EXTRA_TARGETS = ["model/RenderTie.vo", "model/RenderDataTie.vo"]
 THRESHOLDS = [0.0, 1 / 255, 0.5, 254 / 255, 0.999]
+NO_ALPHA_MODES = {"1", "L", "RGB", "HSV", "CMYK"}  # common.py: modes rendered without an alpha channel
 
 
 def gen_case(rng):
@@ -25,7 +26,9 @@ def gen_case(rng):
     img = R.gen_image(rng, 16, kinds=(kind,))
     if identity:
         img["size"] = [w, 2 * h]
-        img["mode"] = rng.choice(["RGBA", "RGBA", "RGB"])
+        img["mode"] = rng.choice(["RGBA", "RGBA", "RGB", "P", "LA"])
+        if img["mode"] == "P":
+            img["ptrans"] = rng.randrange(8)  # palette image with a transparent index
         # bilevel alpha, or partial alpha with / without fully transparent pixels (the expected
         # composite over the background is computed exactly by identity_check)
         img["alphas"] = rng.choice([[0, 255, 255], [0, 255, 255], [0, 255, 128, 1, 254, 37, 200],
@@ -54,6 +57,10 @@ def corpus():
                "term_bg": [255, 255, 255],
                "img": {"mode": "RGB", "size": [5, 4], "seed": 5, "kind": "uniform", "bg_pixel": [255, 255, 255]},
                "want_source_pixels": True, "identity": True})
+    for alpha in (0.5, "#", "#102030", None):
+        cs.append({"style": "block", "cells": [6, 2], "alpha": alpha, "args": {}, "on_kitty": False, "term_bg": [18, 52, 86],
+                   "img": {"mode": "P", "size": [6, 4], "seed": 5, "kind": "runs", "ptrans": 1, "alphas": [255]},
+                   "want_source_pixels": True, "identity": True})
     return cs
 
 
@@ -77,7 +84,7 @@ def identity_check(case, res):
         return f"pixel count {len(rgb)} != source {len(src)}"
     alpha = case.get("alpha")
     amode = res.get("alpha_mode", False)
-    has_alpha = case["img"]["mode"] == "RGBA"
+    has_alpha = case["img"]["mode"] not in NO_ALPHA_MODES
     term_bg = case.get("term_bg") or [0, 0, 0]
     if isinstance(alpha, str):
         under = term_bg if alpha == "#" else [int(alpha[i:i + 2], 16) for i in (1, 3, 5)]
@@ -120,7 +127,7 @@ def rd_term(case, res):
     bgt = f"(Some {R.rgb_t(bg)})" if bg else "None"
     src = core.coq_list(res["src"], lambda p: f"{{| s_rgb := {R.rgb_t(p[:3])}; s_a := {p[3]} |}}")
     obs = core.coq_list(list(zip(res["rgb"], res["a"])), lambda o: f"({R.rgb_t(o[0])}, {o[1]})")
-    return (f"{{| rd_has_alpha := {R.b(case['img']['mode'] == 'RGBA')}; rd_set := {st}; rd_termbg := {bgt}; "
+    return (f"{{| rd_has_alpha := {R.b(case['img']['mode'] not in NO_ALPHA_MODES)}; rd_set := {st}; rd_termbg := {bgt}; "
             f"rd_src := {src}; rd_obs := {obs}; rd_obs_amode := {R.b(res.get('alpha_mode', False))} |}}")
 
 
